@@ -116,6 +116,7 @@ func addRunProbes(o *sim.Outcome, r *runResult) {
 	o.ProbeN("dst_relocated", int64(r.relocations))
 	o.ProbeN("workbuf_requeried", int64(r.workGrew))
 	o.ProbeN("dst_window_stalls", int64(r.stalls))
+	o.ProbeN("calls_with_allocator_monitored", int64(r.allocChecked))
 	if r.mixedHistory {
 		o.Probe("call_started_with_leftover_dst_history")
 	}
@@ -133,6 +134,8 @@ func addRunProbes(o *sim.Outcome, r *runResult) {
 // collects (C03 owns them; other properties only use them to stop early).
 func perCallViolations(o *sim.Outcome, r *runResult, where string) bool {
 	switch {
+	case len(r.allocated) > 0:
+		o.Fail("decoder_allocates", "decoder_allocates", "generated code must never allocate or free: %s; %s", r.allocated[0], where)
 	case len(r.badIndexes) > 0:
 		o.Fail("io_buffer_contract", "", "%s; %s", r.badIndexes[0], where)
 	case len(r.badStatus) > 0:
